@@ -532,7 +532,7 @@ impl<'a> Gen<'a> {
         let x = pick_name(self);
         let y = pick_name(self);
         let (ex, ey) = (esc(&x), esc(&y));
-        let w = self.rng.weighted(&[10, 10, 8, 8, 6, 5, 4, 3, 3, 5, 4, 4, 4, 3, 14, 3, 3, 4, 3, 3, 3]);
+        let w = self.rng.weighted(&[10, 10, 8, 8, 6, 5, 4, 3, 3, 5, 4, 4, 4, 3, 14, 3, 3, 4, 3, 3, 3, 2, 2, 3]);
         match w {
             0 => format!("{}/**", ex),
             1 => format!("**/{}/**", ex),
@@ -558,7 +558,11 @@ impl<'a> Gen<'a> {
             17 => format!("{{{}/,{}/**/}}*", ex, ey),
             18 => format!("{{{}/**/,{}/}}*{}", ex, ey, esc(&x.chars().last().unwrap().to_string())),
             19 => format!("*{{/**/{},/{}}}", ex, ey),
-            _ => format!("{{{}/{{{}/**,{}}},{}}}", ex, ey, ex, ey),
+            20 => format!("{{{}/{{{}/**,{}}},{}}}", ex, ey, ex, ey),
+            // trailing separators, and a flag in the middle of the pattern
+            21 => format!("{}/", ex),
+            22 => format!("**/{}/", ex),
+            _ => format!("**/(?i){}(?-i)/{}", esc(&x.to_uppercase()), if self.rng.chance(1, 2) { "**".to_string() } else { ey.clone() }),
         }
     }
 
@@ -637,6 +641,28 @@ impl<'a> Gen<'a> {
             })
             .map(|(p, _)| p.clone())
             .collect()
+    }
+
+    /// A base directory for a walk: usually a plain directory, sometimes (if allowed) a symbolic
+    /// link that resolves to a directory.
+    pub fn pick_base(&mut self, model: &Model, root_bias: usize, allow_link: bool) -> String {
+        if allow_link && self.rng.chance(7, 100) {
+            let plain = Self::plain_dirs(model);
+            let links: Vec<String> = model
+                .nodes
+                .iter()
+                .filter(|(p, i)| {
+                    matches!(i.kind, Kind::Link { .. })
+                        && plain.contains(&parent(p).to_string())
+                        && model.resolve(p, true).map_or(false, |c| plain.contains(&c))
+                })
+                .map(|(p, _)| p.clone())
+                .collect();
+            if !links.is_empty() {
+                return self.rng.pick(&links).clone();
+            }
+        }
+        self.pick_dir(model, root_bias)
     }
 
     pub fn pick_dir(&mut self, model: &Model, root_bias: usize) -> String {
